@@ -992,6 +992,12 @@ def check(ctx: Ctx) -> None:
     check_r15_3(ctx)
     check_r15_4(ctx)
     check_r15_5(ctx)
+    from . import _extra, C05
+    from ..core import include
+    _extra.check_universal_loop(ctx, 'R15.1', 'registries._matches_metadata')
+    # R15.6 (= R5.2): the per-handler selection of the changing registry (cause kind, initial/deleted flags, then the criteria) -- no handler is
+    # dropped before its own criteria were evaluated
+    include(ctx, C05.check_registry, 'R15.6', 'C05')
 
 
 SPEC = PropSpec(
